@@ -138,7 +138,7 @@ def main():
     print("claimed:", [c["property_id"] for c in m["checks"]])
 
 
-HOOK_COMMITS = []
+HOOK_COMMITS = ["46526c8"]
 
 if __name__ == "__main__":
     main()
